@@ -375,3 +375,104 @@ Proof.
       exists f', raw'. cbn [iterate]. rewrite (fix_step_some st f raw d0 rest n0 HU HB INV M L0). fold C.
       split; [exact IT|]. split; [exact EM|]. rewrite CL. apply code_lines_insert, comment_line_comment_only.
 Qed.
+
+(* ------------------------------------------------------------------ *)
+(* 5. the guard as a boolean (evaluated by the harness on every case)   *)
+
+Definition line_of (d : diag) : nat := match d_line d with Some n => n | None => 0 end.
+
+Definition base_okb (f : file) (raw : list diag) : bool :=
+  forallb (fun d => match d_line d with Some n => (1 <=? n) && (n <=? length f) | None => false end
+                    && d_obey d && (d_code d <? n_codes)%N) raw.
+
+(* clause `first_code_line`: the comment would land at column 0 directly below the leading '#' block *)
+Definition pos_okb (f : file) (d : diag) : bool :=
+  let n := line_of d in
+  (leading_len f <=? n - 1)
+  && (negb (Nat.eqb (leading_len f) (n - 1)) || negb (Nat.eqb (indentation (line_at f (n - 1))) 0)).
+(* clause `comment_above`: the line above is already an own-line ignore comment *)
+Definition prev_okb (f : file) (d : diag) : bool :=
+  let n := line_of d in (n <? 2) || negb (own_any IGN (line_at f (n - 2))).
+(* clause `two_codes_one_line` *)
+Definition one_okb (M : list diag) (d : diag) : bool :=
+  forallb (fun d2 => negb (Nat.eqb (line_of d2) (line_of d)) || N.eqb (d_code d2) (d_code d)) M.
+
+Definition fix_guardb (st : settings) (f : file) (raw : list diag) : bool :=
+  base_okb f raw
+  && let M := main IGN nm st f raw in
+     forallb (fun d => pos_okb f d && prev_okb f d && one_okb M d) M.
+
+Theorem fix_guardb_sound : forall st f raw, fix_guardb st f raw = true -> fix_inv st f raw.
+Proof.
+  intros st f raw G. unfold fix_guardb in G. apply andb_true_iff in G. destruct G as [BO MG].
+  unfold base_okb in BO. rewrite forallb_forall in BO. rewrite forallb_forall in MG.
+  assert (BASE : forall d, In d raw ->
+            (exists n, d_line d = Some n /\ 1 <= n <= length f) /\ d_obey d = true /\ (d_code d < n_codes)%N).
+  { intros d IN. specialize (BO d IN). apply andb_true_iff in BO. destruct BO as [BO C].
+    apply andb_true_iff in BO. destruct BO as [L O]. destruct (d_line d) as [n|]; [|discriminate].
+    apply andb_true_iff in L. destruct L as [L1 L2]. apply Nat.leb_le in L1. apply Nat.leb_le in L2.
+    apply N.ltb_lt in C. split; [exists n; split; [reflexivity|lia]|]. split; assumption. }
+  constructor.
+  - intros d IN. apply BASE, IN.
+  - intros d IN. apply BASE, IN.
+  - intros d IN. apply BASE, IN.
+  - intros d n IN L. specialize (MG d IN). apply andb_true_iff in MG. destruct MG as [MG _].
+    apply andb_true_iff in MG. destruct MG as [P _]. unfold pos_okb, line_of in P. rewrite L in P.
+    apply andb_true_iff in P. destruct P as [P1 P2]. apply Nat.leb_le in P1. split; [exact P1|].
+    intros E. apply orb_true_iff in P2. destruct P2 as [P2|P2]; apply negb_true_iff in P2.
+    + apply Nat.eqb_neq in P2. contradiction.
+    + now apply Nat.eqb_neq in P2.
+  - intros d n IN L GE. specialize (MG d IN). apply andb_true_iff in MG. destruct MG as [MG _].
+    apply andb_true_iff in MG. destruct MG as [_ P]. unfold prev_okb, line_of in P. rewrite L in P.
+    apply orb_true_iff in P. destruct P as [P|P]; [apply Nat.ltb_lt in P; lia|now apply negb_true_iff in P].
+  - intros d1 d2 n IN1 IN2 L1 L2. specialize (MG d2 IN2). apply andb_true_iff in MG. destruct MG as [_ P].
+    unfold one_okb in P. rewrite forallb_forall in P. specialize (P d1 IN1). unfold line_of in P.
+    rewrite L1, L2, Nat.eqb_refl in P. cbn in P. now apply N.eqb_eq.
+Qed.
+
+(* ------------------------------------------------------------------ *)
+(* 6. witnesses: what happens outside the guard                         *)
+
+Definition all_but_tail : settings := fun c => negb (N.eqb c U) && negb (N.eqb c B).
+
+(* two codes on one line: each new comment pushes the previous one away from
+   the line; the loop is still running when the iteration limit is reached *)
+Definition two_codes_file : file := [[100%N]; [32%N; 32%N; 120%N]].
+Definition two_codes_raw : list diag := [mk_diag 1 3 (Some 2) 2 true; mk_diag 2 9 (Some 2) 6 true].
+
+Lemma two_codes_diverges : iterate IGN nm 150 all_but_tail U B two_codes_file two_codes_raw = None
+  /\ base_okb two_codes_file two_codes_raw = true
+  /\ fix_guardb all_but_tail two_codes_file two_codes_raw = false.
+Proof. vm_compute. auto. Qed.
+
+(* a reported line directly below the (possibly empty) leading '#' block, at column 0:
+   the inserted comment is a file-level ignore and silences a diagnostic two lines below *)
+Definition first_line_file : file := [[120%N]; [121%N]; [122%N]].
+Definition first_line_raw : list diag := [mk_diag 1 3 (Some 1) 0 true; mk_diag 2 3 (Some 3) 0 true].
+
+Lemma first_line_becomes_file_level :
+  exists f' raw', fix_step IGN nm all_but_tail U B first_line_file first_line_raw = Some (f', raw')
+    /\ main IGN nm all_but_tail first_line_file first_line_raw = first_line_raw
+    /\ main IGN nm all_but_tail f' raw' = []
+    /\ base_okb first_line_file first_line_raw = true
+    /\ fix_guardb all_but_tail first_line_file first_line_raw = false.
+Proof. eexists. eexists. vm_compute. repeat split. Qed.
+
+(* with unused_ignore enabled the loop never ends either: the report for an
+   unused comment ignores ignore comments, yet a comment is added for it *)
+Definition unused_file : file := [[100%N]; [32%N; 32%N; 120%N; 32%N] ++ tag IGN nm 8%N].
+Definition unused_raw : list diag := [].
+
+Lemma unused_ignore_enabled_diverges :
+  iterate IGN nm 150 (fun c => negb (N.eqb c B)) U B unused_file unused_raw = None.
+Proof. vm_compute. reflexivity. Qed.
+
+(* the guard is satisfiable by a non-trivial input: three diagnostics, two codes, three lines *)
+Definition ok_file : file := [[100%N]; [32%N; 32%N; 120%N]; [32%N; 32%N; 121%N]; []; [32%N; 32%N; 122%N]].
+Definition ok_raw : list diag :=
+  [mk_diag 1 3 (Some 2) 2 true; mk_diag 2 9 (Some 3) 2 true; mk_diag 3 3 (Some 5) 2 true; mk_diag 4 3 (Some 5) 4 true].
+
+Lemma guard_inhabited :
+  fix_guardb all_but_tail ok_file ok_raw = true /\ length (main IGN nm all_but_tail ok_file ok_raw) = 4
+  /\ exists f' raw', iterate IGN nm 4 all_but_tail U B ok_file ok_raw = Some (f', raw') /\ length f' = 8.
+Proof. split; [vm_compute; reflexivity|]. split; [vm_compute; reflexivity|]. eexists. eexists. vm_compute. split; reflexivity. Qed.
